@@ -310,15 +310,23 @@ pub fn drive(a: &Args) {
         let mut outstanding: VecDeque<Pending> = VecDeque::new();
         let mut sink = Some(sink);
         let mut seq = 0u64;
-        let errkind = if kind.contains("udp") { "Uncategorized" } else if kind == "spy" { "Other" } else { "WouldBlock" };
+        let errkind_base = if kind.contains("udp") { "Uncategorized" } else if kind == "spy" { "Other" } else { "WouldBlock" };
+        let mut errkind = errkind_base;
+        // "the server vanished" window (blocking buffered Unix sinks, every run, never left to the seed): something small is
+        // buffered, the path is renamed away, flush fails (ENOENT) and keeps the data, flush is retried at once and fails again,
+        // the path comes back, flush succeeds and the datagram arrives
+        let mut gone_phase: u8 = 0;
+        let gone_at: u64 = if (kind == "bunix" || kind == "bunix-default") && mcap >= 4 { 3 } else { u64::MAX };
         let mut stray = 0usize;
         let mut missed = false;
         take_hooks();
         let mut wire = wire;
         let mut old_receivers: Vec<UnixDatagram> = vec![];
         let mut last_failed = false;
+        let mut last_was_flush = false;
+        let mut retried_flush = false;
         // the server behind a Unix path is replaced in two of every three passes over the kinds (never left to the seed)
-        let rebind_at = if kind.contains("unix") && cycle % 3 != 2 { rng.random_range(1..(ops * 2 / 3).max(2)) } else { u64::MAX };
+        let rebind_at = if kind.contains("unix") && cycle % 3 != 2 { rng.random_range(10..(ops * 2 / 3).max(12)) } else { u64::MAX };
         for opi in 0..ops {
             if opi == rebind_at {
                 // the server behind the path is replaced (restart / hand-over): the sink was given a PATH and
@@ -337,9 +345,42 @@ pub fn drive(a: &Args) {
                 }
             }
             // a caller whose last call failed often simply flushes (again) next
-            let flush = buffered && (rng.random_range(0..10) == 0 || (last_failed && rng.random_bool(0.5)));
+            // (the first failed FLUSH of a run is always retried at once, with no emit in between: never left to the seed)
+            let retry_now = buffered && last_failed && last_was_flush && !retried_flush;
+            if retry_now {
+                retried_flush = true;
+            }
+            if opi == gone_at {
+                gone_phase = 1;
+            }
+            let forced: Option<Option<usize>> = match gone_phase {
+                1 => Some(Some(mcap.saturating_sub(2).min(6))),
+                2 => {
+                    if let Wire::Unix(_, _, p) = &wire {
+                        let _ = std::fs::rename(p, format!("{}.gone", p));
+                    }
+                    errkind = "NotFound";
+                    Some(None)
+                }
+                3 => Some(None),
+                4 => {
+                    if let Wire::Unix(_, _, p) = &wire {
+                        let _ = std::fs::rename(format!("{}.gone", p), p);
+                    }
+                    errkind = errkind_base;
+                    Some(None)
+                }
+                _ => None,
+            };
+            if gone_phase > 0 {
+                gone_phase = if gone_phase >= 4 { 0 } else { gone_phase + 1 };
+            }
+            let flush = forced == Some(None) || (forced.is_none() && (retry_now || (buffered && (rng.random_range(0..10) == 0 || (last_failed && rng.random_bool(0.5))))));
             let text = if flush {
                 String::new()
+            } else if let Some(Some(l)) = forced {
+                seq += 1;
+                metric(seq, l)
             } else {
                 seq += 1;
                 let len = match rng.random_range(0..12) {
@@ -392,6 +433,7 @@ pub fn drive(a: &Args) {
                 stray += resolve(&mut evs, &mut outstanding, got, errkind).len();
             }
             last_failed = matches!(r, Ok(Err(_)));
+            last_was_flush = flush;
             match r {
                 Ok(Ok(n)) => evs.push(json!({"ev":"ret","ok":true,"n":n,"kind":""})),
                 Ok(Err(e)) => evs.push(json!({"ev":"ret","ok":false,"n":0,"kind":io_kind(&e)})),
